@@ -659,23 +659,48 @@ func (h *hist) customQuery(t *tinfo, g *gen, op Op) {
 		h.out.Probe("skipped:no live row")
 		return
 	}
-	// new value for q.Set, selector = the picked row's q.Where value
+	cp := func(v reflect.Value) reflect.Value {
+		c := reflect.New(v.Type()).Elem()
+		c.Set(v)
+		return c
+	}
+	// new value for q.Set; the selectors are taken from the picked row (for the
+	// OR forms from either of the two compared columns)
 	nv := reflect.New(row.FieldByName(q.Set).Type()).Elem()
 	g.fillColumn(nv, t.Column(q.Set), false)
-	sel := row.FieldByName(q.Where)
-	selCopy := reflect.New(sel.Type()).Elem()
-	selCopy.Set(sel)
-	_, err := h.call(q.Name, f, h.db(), nv, selCopy)
-	h.note("%s(%s, %s) -> err=%v", q.Name, show(nv), show(selCopy), err)
+	sel := cp(row.FieldByName(q.Where))
+	if q.Form >= 1 && g.r.Bool() {
+		sel = cp(row.FieldByName(q.Where2))
+	}
+	args := []reflect.Value{h.db(), nv, sel}
+	var lim reflect.Value
+	if q.Form == 2 {
+		lim = cp(row.FieldByName(q.Where3))
+		args = append(args, lim)
+	}
+	_, err := h.call(q.Name, f, args...)
+	h.note("%s(%s, %s, ...) -> err=%v", q.Name, show(nv), show(sel), err)
 	if h.faulted() || !h.judgeErr(q.Name, err) {
 		return
 	}
+	// all conditions are evaluated on the old values, then the rows are updated
+	var hit []reflect.Value
 	for _, r := range t.rows {
-		if equalish(r.FieldByName(q.Where), selCopy) {
-			r.FieldByName(q.Set).Set(nv)
+		m := equalish(r.FieldByName(q.Where), sel)
+		if q.Form >= 1 {
+			m = m || equalish(r.FieldByName(q.Where2), sel)
+		}
+		if q.Form == 2 {
+			m = m && equalish(r.FieldByName(q.Where3), lim)
+		}
+		if m {
+			hit = append(hit, r)
 		}
 	}
-	h.out.Keys = append(h.out.Keys, "@call:query/"+t.Name)
+	for _, r := range hit {
+		r.FieldByName(q.Set).Set(nv)
+	}
+	h.out.Keys = append(h.out.Keys, fmt.Sprintf("@call:query%d/%s", q.Form, t.Name))
 }
 
 // ---- link tables ----------------------------------------------------------
